@@ -4,14 +4,18 @@
 def setup(register, COMMON_TB):
     register(
         "C14", coq="C14", coq_extra=["k8s", "ngx", "gen", "C04", "C17"], pkg="./internal/mode/static/", test="TestVerifC14",
-        extra=[dict(pkg="./internal/mode/static/state/dataplane/", test="TestVerifC14Sort")],
+        extra=[dict(pkg="./internal/mode/static/state/dataplane/", test="TestVerifC14Sort"),
+               dict(pkg="./internal/mode/static/state/graph/", test="TestVerifC14Pol")],
         rule="generated cluster states with competing resources (second Gateway of the class with equal or different age, copies of Routes with the "
              "same matches and other backends, equal timestamps) are run through the real handler 4 (quick) or 8 (thorough) times with the events in "
              "different orders and batchings; Go re-randomises map iteration in each run; all runs must yield the same canonical configuration and the "
              "same (object, type, status, reason) of the conditions the final state makes the controller issue; non-trivial = at least 3 routes. Second part "
              "(TestVerifC14Sort, evaluated by C14/MatchSortCheck.v): the real sortMatchRules on the match rules of one location - 1 to 4 Routes with few distinct "
              "timestamps and namespaces, up to ~45 rules, the Routes in a random order - must leave the order the model's stable sort leaves, which must be sorted by "
-             "(method, header count, query count, Route age, namespace/name, position in the Route)",
+             "(method, header count, query count, Route age, namespace/name, position in the Route). Third part (TestVerifC14Pol, evaluated by C14/PolConflictCheck.v): the real markConflictedPolicies "
+             "on sets of 2 to 8 policies (one or two kinds, one to three of four targets each, few timestamps and namespaces, some invalid from the start, a "
+             "generated conflict relation), 6 (quick) or 12 (thorough) times on freshly built maps: every run must give the verdicts of the model, all runs the same, "
+             "survivors must not conflict and every loser must have lost to an older survivor",
         trusted_base=COMMON_TB + [
             "canonicalisation of generated files (C17/Check.v files_equal: top-level blocks as multisets, match keys replaced by their match lists)",
             "statuses are wiped before a final forced rebuild, so that the compared conditions are those the final state makes the controller issue "
